@@ -12,6 +12,7 @@ import (
 	"hash"
 	"io"
 	"sort"
+	"sync"
 	"time"
 
 	"github.com/cespare/xxhash/v2"
@@ -60,7 +61,10 @@ type File struct {
 
 // Store is the durable state.
 type Store struct {
-	Sim   *simrt.Sim
+	Sim *simrt.Sim
+	// mu guards Files and the counters: in pass-through (free) mode the goroutines of the
+	// system under test are not serialised by the scheduler
+	mu    sync.Mutex
 	Files map[backend.Handle]*File
 	Muts  int
 	Log   []Mutation
@@ -274,6 +278,7 @@ func (c *Client) leave(op string, h backend.Handle) {
 
 func (c *Client) applied(m Mutation, data []byte) {
 	s := c.S
+	s.mu.Lock()
 	s.Muts++
 	c.Muts++
 	m.Seq = s.Muts
@@ -284,6 +289,7 @@ func (c *Client) applied(m Mutation, data []byte) {
 	if s.KeepLog {
 		s.Log = append(s.Log, m)
 	}
+	s.mu.Unlock()
 	for _, f := range s.OnMutation {
 		f(m, data)
 	}
@@ -344,17 +350,22 @@ func (c *Client) Save(ctx context.Context, h backend.Handle, rd backend.RewindRe
 	if ctx.Err() != nil {
 		return ctx.Err()
 	}
-	if _, ok := c.S.Files[h]; ok && !c.Props.HasAtomicReplace {
+	c.S.mu.Lock()
+	_, exists := c.S.Files[h]
+	if exists && !c.Props.HasAtomicReplace {
+		c.S.mu.Unlock()
 		return ErrExists
 	}
 	if d.kind == "torn" {
-		c.fire("save-torn")
 		part := append([]byte(nil), buf[:d.arg]...)
 		c.S.Files[h] = &File{Data: part, Created: c.S.Sim.Elapsed(), Seq: c.S.Muts + 1}
+		c.S.mu.Unlock()
+		c.fire("save-torn")
 		c.applied(Mutation{Op: "torn", H: h, Size: len(part)}, part)
 		return ErrTransient
 	}
 	c.S.Files[h] = &File{Data: buf, Created: c.S.Sim.Elapsed(), Seq: c.S.Muts + 1}
+	c.S.mu.Unlock()
 	c.applied(Mutation{Op: "save", H: h, Size: len(buf)}, buf)
 	if c.Dead {
 		return ErrCrashed
@@ -416,7 +427,9 @@ func (c *Client) Load(ctx context.Context, h backend.Handle, length int, offset 
 		c.fire("load-err-before")
 		return ErrTransient
 	}
+	c.S.mu.Lock()
 	f, ok := c.S.Files[h]
+	c.S.mu.Unlock()
 	if !ok {
 		return ErrNotFound
 	}
@@ -475,7 +488,9 @@ func (c *Client) Stat(ctx context.Context, h backend.Handle) (backend.FileInfo, 
 		c.fire("stat-err")
 		return backend.FileInfo{}, ErrTransient
 	}
+	c.S.mu.Lock()
 	f, ok := c.S.Files[h]
+	c.S.mu.Unlock()
 	if !ok {
 		return backend.FileInfo{}, ErrNotFound
 	}
@@ -510,10 +525,13 @@ func (c *Client) Remove(ctx context.Context, h backend.Handle) error {
 	if ctx.Err() != nil {
 		return ctx.Err()
 	}
+	c.S.mu.Lock()
 	if _, ok := c.S.Files[h]; !ok {
+		c.S.mu.Unlock()
 		return ErrNotFound
 	}
 	delete(c.S.Files, h)
+	c.S.mu.Unlock()
 	c.applied(Mutation{Op: "remove", H: h}, nil)
 	if c.Dead {
 		return ErrCrashed
@@ -553,11 +571,13 @@ func (c *Client) List(ctx context.Context, t backend.FileType, fn func(backend.F
 		return ErrTransient
 	}
 	var fis []backend.FileInfo
+	c.S.mu.Lock()
 	for fh, f := range c.S.Files {
 		if fh.Type == t {
 			fis = append(fis, backend.FileInfo{Name: fh.Name, Size: int64(len(f.Data))})
 		}
 	}
+	c.S.mu.Unlock()
 	sort.Slice(fis, func(i, j int) bool { return fis[i].Name < fis[j].Name })
 	if c.ListOrder == 1 {
 		for i, j := 0, len(fis)-1; i < j; i, j = i+1, j-1 {
@@ -605,6 +625,8 @@ func (c *Client) List(ctx context.Context, t backend.FileType, fn func(backend.F
 
 // Get returns the stored bytes (nil if absent).
 func (s *Store) Get(h backend.Handle) []byte {
+	s.mu.Lock()
+	defer s.mu.Unlock()
 	if f, ok := s.Files[norm(h)]; ok {
 		return f.Data
 	}
@@ -613,6 +635,8 @@ func (s *Store) Get(h backend.Handle) []byte {
 
 // Names returns the sorted names of all files of a type.
 func (s *Store) Names(t backend.FileType) []string {
+	s.mu.Lock()
+	defer s.mu.Unlock()
 	var out []string
 	for h := range s.Files {
 		if h.Type == t {
@@ -625,14 +649,22 @@ func (s *Store) Names(t backend.FileType) []string {
 
 // Put stores bytes directly (at-rest manipulation by the harness).
 func (s *Store) Put(h backend.Handle, data []byte) {
+	s.mu.Lock()
+	defer s.mu.Unlock()
 	s.Files[norm(h)] = &File{Data: data, Created: s.Sim.Elapsed(), Seq: s.Muts}
 }
 
 // Del removes a file directly.
-func (s *Store) Del(h backend.Handle) { delete(s.Files, norm(h)) }
+func (s *Store) Del(h backend.Handle) {
+	s.mu.Lock()
+	defer s.mu.Unlock()
+	delete(s.Files, norm(h))
+}
 
 // Clone returns a deep copy of the file map (for crash-prefix sweeps).
 func (s *Store) Clone() map[backend.Handle][]byte {
+	s.mu.Lock()
+	defer s.mu.Unlock()
 	m := make(map[backend.Handle][]byte, len(s.Files))
 	for h, f := range s.Files {
 		m[h] = f.Data
@@ -642,6 +674,8 @@ func (s *Store) Clone() map[backend.Handle][]byte {
 
 // Restore replaces the contents by a snapshot taken with Clone.
 func (s *Store) Restore(m map[backend.Handle][]byte) {
+	s.mu.Lock()
+	defer s.mu.Unlock()
 	s.Files = make(map[backend.Handle]*File, len(m))
 	for h, d := range m {
 		s.Files[h] = &File{Data: d}
